@@ -846,7 +846,15 @@ def c05_21(ctx):
 
 
 
+def c05_22(ctx):
+    """the leaf script of a script-path spend is hashed as the bytes the witness holds (rule shared with C12.22)"""
+    from rules.C12 import c12_22
+    return c12_22(ctx)
+
+
+
 OBLIGATIONS = [
+    ("C05.22", "CELLS leaf bytes (shared C12.22)", c05_22),
     ("C05.21", "DIGEST-SOURCE", c05_21),
     ("C05.20", "CELLS annex index (shared C12.10)", c05_20),
     ("C05.18", "OWNERSHIP (shared C06.13)", c05_18),
